@@ -54,11 +54,18 @@ func runSolver(ctx context.Context, s solverSpec, dir, base, script string, time
 	_ = cmd.Run()
 	secs := time.Since(t0).Seconds()
 	text := out.String()
-	first := strings.TrimSpace(strings.SplitN(text, "\n", 2)[0])
+	// the answer is the first line that is not a solver warning (z3 warns about terms it will not use in patterns);
+	// an (error ...) line before it means the script was not understood: undecided
 	ans := "unknown"
-	switch first {
-	case "sat", "unsat":
-		ans = first
+	for _, ln := range strings.Split(text, "\n") {
+		ln = strings.TrimSpace(ln)
+		if ln == "" || strings.HasPrefix(ln, "WARNING:") {
+			continue
+		}
+		if ln == "sat" || ln == "unsat" {
+			ans = ln
+		}
+		break
 	}
 	return solveOut{answer: ans, solver: s.name, secs: secs, output: text}
 }
